@@ -10,7 +10,7 @@ CONSTANTS
   EncChoices = {FALSE}
   ByValueMax = 1
   AllowConflicts = FALSE
-  Features = {"succ", "reinit"}
+  Features = {"succ", "reinit", "succtweak"}
   Window = 2
   Retention = 2
   BurstSizes = {1, 2}
